@@ -90,7 +90,9 @@ def build_world(arch):
     # lanelets carry non-default optional data (line markings of every drawing style, stop line, types, users,
     # adjacency): side effects of read-only code are conditional on such data
     from commonroad.common.common_lanelet import LaneletType, LineMarking, RoadUser, StopLine
-    l1 = G.lanelet(1, 0.0, 0.0, 10.0, 2.0, n=3, successor=[2], traffic_signs={30}, traffic_lights={40},
+    # (a successor list that is not in sorted order: clean-up / normalisation must not be a
+    #  side effect of a query)
+    l1 = G.lanelet(1, 0.0, 0.0, 10.0, 2.0, n=3, successor=[3, 2], traffic_signs={30}, traffic_lights={40},
                    line_marking_left_vertices=LineMarking.SOLID, line_marking_right_vertices=LineMarking.BROAD_SOLID,
                    stop_line=StopLine(np.array([9.0, 0.0]), np.array([9.0, 2.0]), LineMarking.SOLID, {30}, {40}),
                    lanelet_type={LaneletType.URBAN}, user_one_way={RoadUser.CAR, RoadUser.BUS},
@@ -106,6 +108,7 @@ def build_world(arch):
     sc.add_objects(G.sign(30, (1.0, 3.0)), {1})
     sc.add_objects(G.light(40, (2.0, 3.0)), {1})
     sc.add_objects(G.static_obstacle(50, 3.0, 1.0))
+    sc.add_objects(G.static_obstacle(60, 13.0, 1.0))           # on the successor lanelet
     sc.add_objects(G.dynamic_obstacle(51, 1.0, 1.0, poses=[(2.0, 1.0, 0.0), (3.0, 1.0, 0.1)]))
     if "custom_no_orientation" in arch:
         sts = [CustomState(position=np.array([4.0 + i, 1.0]), velocity=1.0, velocity_y=0.5, time_step=1 + i) for i in range(2)]
@@ -130,6 +133,8 @@ def build_world(arch):
         sc.add_objects(DynamicObstacle(58, ObstacleType.PEDESTRIAN, Circle(0.3), G.init_state(17.0, 1.0)))
     if "environment" in arch:
         sc.add_objects(EnvironmentObstacle(59, ObstacleType.BUILDING, Polygon(np.array([[0.0, 5.0], [4.0, 5.0], [4.0, 8.0], [0.0, 8.0]]))))
+    # lanelets know the obstacles on them (registries are part of the observable state of a lanelet)
+    sc.assign_obstacles_to_lanelets(obstacle_ids={50, 51, 60})
     # planning problems
     g0 = CustomState(time_step=Interval(1, 5), position=Rectangle(4.0, 2.0, np.array([15.0, 1.0])),
                      orientation=AngleInterval(-0.5, 0.5), velocity=Interval(0.0, 10.0))
@@ -275,9 +280,13 @@ def do_op(op, sc, pps):
             la.inner_distance
             la.polygon
             la.interpolate_position(1.0)
-            la.orientation_by_position(np.array([la.center_vertices[0][0] + 0.5, 1.0]))
+            la.orientation_by_position(np.array(la.center_vertices[1], dtype=float))
             la.contains_points(np.array([[1.0, 1.0], [11.0, 1.0]]))
             la.find_lanelet_successors_in_range(net, 30.0)
+            la.find_lanelet_predecessors_in_range(net, 30.0)
+        for la in net.lanelets:
+            type(la).all_lanelets_by_merging_successors_from_lanelet(la, net, 50.0)
+            type(la).all_lanelets_by_merging_predecessors_from_lanelet(la, net, 50.0)
         net.lanelets[0].get_obstacles(sc.static_obstacles, 0)
     elif op == "light":
         for tl in net.traffic_lights:
